@@ -173,12 +173,18 @@ fn replace_html_char<'a>(ch: char) -> Cow<'a, str> {
         '&' => Cow::from("&amp;"),
         '\'' => Cow::from("&#39;"),
         '"' => Cow::from("&quot;"),
-        '\0' => Cow::from(""),
+        // characters that can not appear in an XML document are dropped
+        '\u{0}'..='\u{8}'
+        | '\u{b}'
+        | '\u{c}'
+        | '\u{e}'..='\u{1f}'
+        | '\u{fffe}'
+        | '\u{ffff}' => Cow::from(""),
         _ => Cow::from(ch.to_string()),
     }
 }
 
-fn escape_html_text(s: &str) -> String {
+pub(crate) fn escape_html_text(s: &str) -> String {
     s.chars().map(replace_html_char).collect()
 }
 
